@@ -378,11 +378,16 @@ func c14RunSteps(r *Run, c *Case, hooks []c14Hook, steps []c14Step) {
 
 	// the op line and the oracle line of one answered request; logLines = what the hook processes
 	// logged during the step, stepUIDs = the uids of the step's requests
-	report := func(q c14Req, rec *httptest.ResponseRecorder, logLines []string, stepUIDs map[string]bool) {
+	// own = the log line of the hook process that was started for this request, when the scripted
+	// interleaving tells ("" = the lines that carry the request's uid)
+	report := func(q c14Req, rec *httptest.ResponseRecorder, logLines []string, stepUIDs map[string]bool, own string) {
 		// who ran
 		ran := "-"
 		var mine []string
 		foreign := 0
+		if own != "" {
+			mine, logLines = []string{own}, nil
+		}
 		for _, l := range logLines {
 			f := strings.Fields(l)
 			if len(f) >= 3 && f[2] == q.UID {
@@ -501,6 +506,11 @@ func c14RunSteps(r *Run, c *Case, hooks []c14Hook, steps []c14Step) {
 			}
 		}
 		recs := make([]*httptest.ResponseRecorder, len(st.Reqs))
+		// overlapping requests: the index in the log of the line of the process started for request i (-1 = not known)
+		procIdx := make([]int, len(st.Reqs))
+		for i := range procIdx {
+			procIdx[i] = -1
+		}
 		if len(st.Sched) == 0 {
 			for i, q := range st.Reqs {
 				recs[i] = send(q)
@@ -647,6 +657,7 @@ func c14RunSteps(r *Run, c *Case, hooks []c14Hook, steps []c14Step) {
 						lines := logNow()
 						f := strings.Fields(lines[before])
 						logSeen = len(lines)
+						procIdx[i] = before
 						hid, name, guid := -1, "?", "?"
 						if len(f) >= 3 {
 							idx, _ := strconv.Atoi(f[1])
@@ -712,7 +723,21 @@ func c14RunSteps(r *Run, c *Case, hooks []c14Hook, steps []c14Step) {
 			}
 		}
 		for i, q := range st.Reqs {
-			report(q, recs[i], logLines, uids)
+			if procIdx[i] >= 0 && procIdx[i] < len(logLines) {
+				report(q, recs[i], nil, uids, logLines[procIdx[i]])
+				continue
+			}
+			var rest []string
+			for k, l := range logLines {
+				claimed := false
+				for _, x := range procIdx {
+					claimed = claimed || x == k
+				}
+				if !claimed {
+					rest = append(rest, l)
+				}
+			}
+			report(q, recs[i], rest, uids, "")
 		}
 	}
 }
